@@ -341,4 +341,150 @@ theorem nums_numberLines (lines : List Str) : nums (numberLines lines) = (List.r
   · intro i h1 h2
     simp
 
+/-! ### the text of every line of the tree is the text of its source line without leading white space it was indented by -/
+
+/-- `l'` is the source line `l ∈ src` with some leading white space removed -/
+def SrcOf (src : List PreLine) (l' : PreLine) : Prop :=
+  ∃ l ∈ src, l.num = l'.num ∧ ∃ k, l'.content = l.content.drop k ∧ ∀ c ∈ l.content.take k, isSpace c = true
+
+theorem SrcOf.mono {a b : List PreLine} {l' : PreLine} (h : SrcOf a l') (hab : ∀ x ∈ a, x ∈ b) : SrcOf b l' := by
+  obtain ⟨l, hl, hn, k, hc, hw⟩ := h
+  exact ⟨l, hab l hl, hn, k, hc, hw⟩
+
+theorem SrcOf.self {src : List PreLine} {l : PreLine} (h : l ∈ src) : SrcOf src l :=
+  ⟨l, h, rfl, 0, by simp, by simp⟩
+
+/-- composition: a line of the lines-with-one-unit-removed is a line of the source -/
+theorem SrcOf.trans {src mid : List PreLine} {l'' : PreLine} (h2 : SrcOf mid l'') (h1 : ∀ l' ∈ mid, SrcOf src l') : SrcOf src l'' := by
+  obtain ⟨l', hl', hn2, k2, hc2, hw2⟩ := h2
+  obtain ⟨l, hl, hn1, k1, hc1, hw1⟩ := h1 l' hl'
+  refine ⟨l, hl, hn1.trans hn2, k1 + k2, ?_, ?_⟩
+  · rw [hc2, hc1, List.drop_drop]
+  · intro c hc
+    rw [List.take_add] at hc
+    rcases List.mem_append.mp hc with h | h
+    · exact hw1 c h
+    · rw [← hc1] at h; exact hw2 c h
+
+def RecContent (rec : ParseFn) : Prop :=
+  ∀ text tab b, (∀ t, tab = some t → AllWs t) → rec text tab = .ok b → ∀ l' ∈ flatL b, SrcOf text l'
+
+structure CInv (done : List PreLine) (st : PState) : Prop where
+  ret : ∀ l' ∈ flatL st.ret.reverse, SrcOf done l'
+  conv : ∀ l' ∈ st.conv, SrcOf done l'
+  tab : ∀ t, st.tab = some t → AllWs t
+
+theorem stepLine_content (rec : ParseFn) (hrec : RecContent rec) (count : Nat) (done : List PreLine) (l : PreLine) (st st' : PState)
+    (hinv : CInv done st) (h : stepLine rec count l st = .ok st') : CInv (done ++ [l]) st' := by
+  have hmono : ∀ {x : PreLine}, SrcOf done x → SrcOf (done ++ [l]) x := fun hx => hx.mono (fun y hy => List.mem_append_left _ hy)
+  have hself : SrcOf (done ++ [l]) l := SrcOf.self (by simp)
+  have hold : CInv (done ++ [l]) st := ⟨fun x hx => hmono (hinv.ret x hx), fun x hx => hmono (hinv.conv x hx), hinv.tab⟩
+  have hpush : ∀ {st2 : PState}, st2.ret = .line l :: st.ret → st2.conv = st.conv → st2.tab = st.tab → CInv (done ++ [l]) st2 := by
+    intro st2 h1 h2 h3
+    refine ⟨?_, by rw [h2]; exact hold.conv, by rw [h3]; exact hold.tab⟩
+    intro x hx
+    rw [h1] at hx
+    simp only [List.reverse_cons, flatL_append, flatL_cons, flat_line, flatL_nil, List.append_nil, List.mem_append, List.mem_singleton] at hx
+    rcases hx with hx | rfl
+    · exact hold.ret x hx
+    · exact hself
+  unfold stepLine at h
+  split at h
+  · cases h; exact hold
+  · simp only [] at h
+    split at h
+    · cases h; exact ⟨hold.ret, hold.conv, hold.tab⟩
+    · split at h
+      · cases h; exact hpush rfl rfl rfl
+      · split at h
+        · cases h
+        · split at h
+          · cases h; exact hpush rfl rfl rfl
+          · split at h
+            · cases h
+            · rename_i b hb2
+              cases h
+              have hb := hrec _ _ b hinv.tab hb2
+              refine ⟨?_, fun x hx => (by cases hx), hold.tab⟩
+              intro x hx
+              simp only [List.reverse_cons, flatL_append, flatL_cons, flat_line, flat_block, flatL_nil, List.append_nil, List.mem_append,
+                List.mem_singleton] at hx
+              rcases hx with (hx | hx) | rfl
+              · exact hold.ret x hx
+              · exact (hb x hx).trans (fun y hy => hold.conv y (by simpa using hy))
+              · exact hself
+        · rename_i t hne ht
+          split at h
+          · cases h
+          · cases h
+            obtain ⟨hws, hstarts⟩ := hasTab_indented l.content st.tab l.num hinv.tab t ht hne
+            have key : ∀ u : Str, AllWs u → startsWith u l.content = true →
+                CInv (done ++ [l]) { st with seen := true, tab := some u, conv := ⟨l.content.drop u.length, l.num⟩ :: st.conv } := by
+              intro u hws hstarts
+              refine ⟨hold.ret, ?_, ?_⟩
+              · intro x hx
+                rcases List.mem_cons.mp hx with rfl | hx
+                · refine ⟨l, by simp, rfl, u.length, rfl, ?_⟩
+                  obtain ⟨r, hr⟩ := List.isPrefixOf_iff_prefix.mp hstarts
+                  intro c hc
+                  rw [← hr] at hc
+                  simp at hc
+                  exact hws c hc
+                · exact hold.conv x hx
+              · intro t' ht'
+                simp only [Option.some.injEq] at ht'
+                subst ht'
+                exact hws
+            cases t with
+            | no => exact absurd rfl hne
+            | yes => exact key _ hws hstarts
+            | discovered d => exact key _ hws hstarts
+
+theorem goLines_content (rec : ParseFn) (hrec : RecContent rec) (lines : List PreLine) :
+    ∀ (count : Nat) (done : List PreLine) (st st' : PState), CInv done st → goLines rec count lines st = .ok st' → CInv (done ++ lines) st' := by
+  induction lines with
+  | nil => intro count done st st' hinv h; simp only [goLines] at h; cases h; simpa using hinv
+  | cons l rest ih =>
+    intro count done st st' hinv h
+    simp only [goLines] at h
+    split at h
+    · cases h
+    · rename_i st1 h1
+      have := ih (count + 1) (done ++ [l]) st1 st' (stepLine_content rec hrec count done l st st1 hinv h1) h
+      simpa [List.append_assoc] using this
+
+theorem parseFuel_content : ∀ f : Nat, RecContent (parseFuel f) := by
+  intro f
+  induction f with
+  | zero => intro text tab b _ h; simp [parseFuel] at h
+  | succ f ih =>
+    intro text tab b htab h
+    simp only [parseFuel] at h
+    split at h
+    · cases h
+    · rename_i st hgo
+      have hinit : CInv [] ({ tab := tab } : PState) := ⟨fun x hx => (by simp at hx), fun x hx => (by cases hx), htab⟩
+      have hinv := goLines_content _ ih text 0 [] _ st hinit hgo
+      simp only [List.nil_append] at hinv
+      unfold finishParse at h
+      split at h
+      · cases h
+      · split at h
+        · cases h; exact hinv.ret
+        · split at h
+          · cases h
+          · rename_i b hb
+            cases h
+            intro x hx
+            simp only [List.reverse_cons, flatL_append, flatL_cons, flat_block, flatL_nil, List.append_nil, List.mem_append] at hx
+            rcases hx with hx | hx
+            · exact hinv.ret x hx
+            · exact (ih _ _ b hinv.tab hb x hx).trans (fun y hy => hinv.conv y (by simpa using hy))
+
+/-- **every line of the tree is a source line with leading white space removed**: same number, and its text is the source text from
+    some position on, everything before that position being white space — the parser never alters, joins or splits the text of a line -/
+theorem parseLines_content (lines : List Str) (nodes : List Node) (h : parseLines lines = .ok nodes) :
+    ∀ l' ∈ flatL nodes, SrcOf (numberLines lines) l' :=
+  parseFuel_content _ _ _ _ (fun _ ht => by cases ht) h
+
 end Duckling
